@@ -24,7 +24,12 @@ type c12Case struct {
 	Alias string `json:"alias,omitempty"` // none | out=a | out=b | a=b | all
 	In    string `json:"in,omitempty"`    // raw bytes for the parsers
 	Class string `json:"class"`
+	// Via (Op == "move"): one field element object holds A, is observed (Bytes, Sgn0, IsZero, Equals), is driven to B
+	// through this mutator, and is observed again.
+	Via string `json:"via,omitempty"`
 }
+
+var c12Vias = []string{"add", "sub", "mul", "negate", "invert", "cmove0", "cmove1", "set", "one", "sqrtratio", "parse32", "parse24", "wide48", "square", "exp"}
 
 func init() {
 	register(&mon.Prop{
@@ -34,7 +39,7 @@ func init() {
 			"operands from the structured list mod p in the canonical domain and Montgomery-domain structured values (stored limbs 0,1,p-1,2^k,2^k±1,2^256-p±1,p with one limb perturbed), " +
 			"operand pairs whose stored forms sum/differ to p-1,p,p+1,2^256-1,2^256,2^256+1,0,1 (pre-reduction values in [p,2^256) that uniform sampling meets with probability 2^-223), limb-structured 4-tuples, PRNG; " +
 			"parser inputs p-40..p+40, p with each limb perturbed, 2^256-1; 48-byte inputs k*p±d, halves structured. Oracle: math/big mod p on the stored limbs (value = limbs*2^-256 mod p); every stored result must be < p. " +
-			"non-trivial = an operand not in {0,1}; distinct by the whole case. Plus concurrent batches: 8 goroutines run the operations simultaneously on objects they own, each result judged against the oracle.",
+			"non-trivial = an operand not in {0,1}; History cases: one field element object holds a value, is read through Bytes/Sgn0/IsZero/Equals, is changed by each mutator (Add, Subtract, Multiply, Negate, Invert, CMove 0/1, Set, One, Square, SqrtRatio as receiver, the three parsers, x^((p-3)/4)) and is read again. distinct by the whole case. Plus concurrent batches: 8 goroutines run the operations simultaneously on objects they own, each result judged against the oracle.",
 		NewCase:  func() any { return &c12Case{} },
 		Generate: c12Generate,
 		Run:      c12Run,
@@ -42,7 +47,7 @@ func init() {
 			return map[string]int64{
 				"op:add": 2000, "op:sub": 2000, "op:mul": 2000, "op:square": 500, "op:neg": 500, "op:invert": 500, "op:sqrtratio": 500, "op:exp": 200,
 				"op:parse32": 1000, "op:parse24": 40, "op:wide48": 1000, "op:cmove": 500, "op:equals": 500, "op:bytes": 500,
-				"sqrtratio:qr": 100, "sqrtratio:nqr": 100, "parse32:ge-p": 200, "parse32:lt-p": 200, "invert:0": 1, "class:carry-sum": 300, "class:carry-diff": 300, "alias:out=a": 300, "alias:out=b": 300,
+				"sqrtratio:qr": 100, "sqrtratio:nqr": 100, "parse32:ge-p": 200, "parse32:lt-p": 200, "invert:0": 1, "class:carry-sum": 300, "class:carry-diff": 300, "alias:out=a": 300, "alias:out=b": 300, "op:move": 300, "via:cmove1": 10, "via:sqrtratio": 10,
 			}
 		},
 	})
@@ -85,6 +90,16 @@ func c12Generate(c *mon.Ctx) {
 	}
 
 	c.Structured(func() any { return &c12Case{Op: "one", Class: "const"} })
+
+	// history: every mutator of a field element, on an object that already held and reported another value
+	mr := c.SharedRng("moves")
+
+	for rep := 0; rep < 30; rep++ {
+		for _, via := range c12Vias {
+			via, a, b := via, hx(gen.Draw(mr, p).X), hx(gen.Draw(mr, p).X)
+			c.Structured(func() any { return &c12Case{Op: "move", Via: via, A: a, B: b, Class: "history"} })
+		}
+	}
 
 	// parsers
 	for _, v := range gen.Raw256(p) {
@@ -187,11 +202,145 @@ func c12Generate(c *mon.Ctx) {
 	})
 }
 
+func c12RunMove(c *mon.Ctx, cs *c12Case) {
+	p := oracle.P
+	from, to := mon.BigH(cs.A), mon.BigH(cs.B)
+	aux := oracle.FAdd(to, big.NewInt(12345))
+
+	c.Count("op:move")
+	c.Count("via:" + cs.Via)
+
+	// choose From so that the mutator lands on To
+	switch cs.Via {
+	case "negate":
+		from = oracle.FNeg(to)
+	case "invert":
+		if to.Sign() == 0 {
+			to = big.NewInt(7)
+		}
+
+		from = oracle.FInv0(to)
+	case "mul":
+		if from.Sign() == 0 {
+			from = big.NewInt(3)
+		}
+	case "one":
+		to = big.NewInt(1)
+	case "square":
+		to = oracle.FSqr(from)
+	case "exp":
+		e := new(big.Int).Sub(p, big.NewInt(3))
+		e.Rsh(e, 2)
+		to = new(big.Int).Exp(from, e, p)
+	case "parse24":
+		to = new(big.Int).Rsh(to, 64)
+	}
+
+	e := mon.FE(from)
+	observe := func(want *big.Int, when string) bool {
+		if !mon.FECanonical(e) {
+			c.Fail(fmt.Sprintf("field element stored non-canonically %s a %s", when, cs.Via), "field-move-noncanonical:"+cs.Via, nil)
+			return false
+		}
+
+		held := mon.FEVal(e)
+		if want != nil && held.Cmp(want) != 0 {
+			c.Fail(fmt.Sprintf("field element holds %x %s %s, want %x", held, when, cs.Via, want), "field-move-value:"+cs.Via, nil)
+			return false
+		}
+
+		z := uint64(0)
+		if held.Sign() == 0 {
+			z = 1
+		}
+
+		if b := e.Bytes(); !bytes.Equal(b, oracle.Bytes32(held)) || e.Sgn0() != uint64(held.Bit(0)) || e.IsZero() != z || e.Equals(mon.FE(held)) != 1 || e.Equals(mon.FE(oracle.FAdd(held, big.NewInt(1)))) != 0 {
+			c.Fail(fmt.Sprintf("Bytes/Sgn0/IsZero/Equals disagree with the stored value %x %s the object was changed by %s (Bytes=%s Sgn0=%d IsZero=%d)", held, when, cs.Via, mon.H(b), e.Sgn0(), e.IsZero()), "field-move-observers:"+cs.Via, nil)
+			return false
+		}
+
+		return true
+	}
+
+	c.Eval(2)
+
+	if !observe(from, "before") {
+		return
+	}
+
+	var want *big.Int = to
+
+	pan, pv := mon.Call(func() {
+		switch cs.Via {
+		case "add":
+			e.Add(e, mon.FE(oracle.FSub(to, from)))
+		case "sub":
+			e.Subtract(e, mon.FE(oracle.FSub(from, to)))
+		case "mul":
+			e.Multiply(e, mon.FE(oracle.FMul(to, oracle.FInv0(from))))
+		case "negate":
+			e.Negate(e)
+		case "invert":
+			e.Invert(*e)
+		case "cmove0":
+			e.CMove(0, mon.FE(to), mon.FE(aux))
+		case "cmove1":
+			e.CMove(1, mon.FE(aux), mon.FE(to))
+		case "set":
+			e.Set(mon.FE(to))
+		case "one":
+			e.One()
+		case "square":
+			e.Square(e)
+		case "exp":
+			e.VExpPMin3Div4(mon.FE(from))
+		case "sqrtratio":
+			// the receiver becomes a root of to^2: either sign is acceptable
+			e.SqrtRatio(mon.FE(oracle.FSqr(to)), mon.FE(big.NewInt(1)))
+			want = nil
+		case "parse32":
+			e.FromBytesWithReduce([32]byte(oracle.Bytes32(to)))
+		case "parse24":
+			e.FromBytesNoReduce(oracle.Bytes32(to)[8:])
+		case "wide48":
+			in := append(make([]byte, 16), oracle.Bytes32(to)...)
+			e.HashToFieldElement([48]byte(in))
+		default:
+			panic("harness: unknown field move " + cs.Via)
+		}
+	})
+	if pan {
+		if m, ok := pv.(string); ok && len(m) > 8 && m[:8] == "harness:" {
+			panic(m)
+		}
+
+		c.Fail(fmt.Sprintf("field mutator %s panicked: %v", cs.Via, pv), "field-move-panic", nil)
+
+		return
+	}
+
+	if cs.Via == "sqrtratio" {
+		if h := mon.FEVal(e); oracle.FSqr(h).Cmp(oracle.FSqr(to)) != 0 {
+			c.Fail("SqrtRatio receiver is not a root", "field-move-value:sqrtratio", nil)
+			return
+		}
+	}
+
+	if observe(want, "after") {
+		c.Seen("move", cs.Via, cs.A, cs.B)
+	}
+}
+
 func c12Run(c *mon.Ctx, csAny any) {
 	cs := csAny.(*c12Case)
 
 	if cs.Conc != 0 {
 		c12RunConc(c, cs.Conc)
+		return
+	}
+
+	if cs.Op == "move" {
+		c12RunMove(c, cs)
 		return
 	}
 	p := oracle.P
